@@ -178,10 +178,19 @@ pub fn templates(pat: &Sx, vars: &[(String, Option<usize>)], k: usize, all: bool
             flat.push(sym("..."));
         }
     }
-    out.push(quote(Sx::List(flat.clone())));
     if !all {
+        // multi-rule sets: the template also mentions, as FREE identifiers, the names other rules
+        // use as pattern variables (they must stay symbols whatever earlier rules bound)
+        let mut f = flat.clone();
+        for n in ["a", "b", "c", "d"] {
+            if !vars.iter().any(|(v, _)| v == n) {
+                f.push(sym(n));
+            }
+        }
+        out.push(quote(Sx::List(f)));
         return out;
     }
+    out.push(quote(Sx::List(flat.clone())));
     // (ii) structure-preserving copy (underscores become a constant)
     fn has_var(x: &Sx) -> bool {
         match x {
@@ -582,7 +591,9 @@ pub fn plan(thorough: bool) -> Plan {
 pub fn run(ctx: &Ctx) -> i32 {
     let pl = plan(ctx.thorough());
     let total = std::env::var("C04_LIMIT").ok().and_then(|s| s.parse().ok()).unwrap_or(pl.total());
-    eprintln!("C04 plan: {}", pl.descr);
+    if std::env::var("MC_VERBOSE").is_ok() {
+        eprintln!("C04 plan: {}", pl.descr);
+    }
     let plr = &pl;
     let acc = par::sweep(
         total,
